@@ -39,7 +39,7 @@ def generate(rng, tier='quick', stack=None, focus='general', **kw):
   balancer = rng.choice(['aperture', 'aperture', 'heap'])
   faults_on = kw.get('faults', rng.random() < 0.7)
   scn = {'world': 'w_stack', 'stack': stack, 'balancer': balancer, 'focus': focus,
-         'iface': 'hello' if (rng.random() < 0.1 and focus == 'general') else 'sim',
+         'iface': 'hello' if (rng.random() < 0.1 and focus == 'general') else ('derived' if rng.random() < 0.2 else 'sim'),
          'client_id': (rng.choice(['cid', 'clïent']) if stack == 'mux' and rng.random() < 0.5 else None)}
   eps = []
   for i in range(n_eps):
@@ -88,7 +88,9 @@ def generate(rng, tier='quick', stack=None, focus='general', **kw):
 
   # calls
   n_calls = rng.randint(3, 40 if not big else 90)
-  methods = ['echo', 'echo', 'echo', 'poke', 'swap', 'risky', 'risky', 'guard'] if scn['iface'] == 'sim' else ['hi']
+  methods = {'sim': ['echo', 'echo', 'echo', 'poke', 'swap', 'risky', 'risky', 'guard'],
+             'derived': ['echo', 'relay', 'relay', 'poke', 'swap', 'risky', 'relay', 'guard'],
+             'hello': ['hi']}[scn['iface']]
   # a third of the scenarios are "late-reply heavy": short timeouts, replies
   # that arrive shortly after them, new calls arriving in between
   late_heavy = rng.random() < 0.33
@@ -134,8 +136,8 @@ def generate(rng, tier='quick', stack=None, focus='general', **kw):
         svc['kind'] = rng.choice(['close', 'reset', 'garbage'] + (['half'] if stack == 'thrift' else ['nack', 'rerror', 'rerr', 'bad_rerr']))
       elif kk < 0.34 and stack == 'mux':
         svc['kind'] = rng.choice(['nack', 'rerror', 'rerr', 'bad_rerr'])
-      elif kk < 0.37 and m == 'echo':
-        svc['kind'] = 'empty'
+      elif kk < 0.37 and m in ('echo', 'relay'):
+        svc['kind'] = rng.choice(['empty', 'empty', 'missing'])
     if stack == 'mux' and rng.random() < 0.3:
       svc['rctx'] = True
     if stack == 'mux' and cfg.get('adversarial') and rng.random() < 0.3:
@@ -147,7 +149,7 @@ def generate(rng, tier='quick', stack=None, focus='general', **kw):
     if stack == 'mux' and rng.random() < 0.35:
       op['props'] = {rng.choice(PROP_KEYS): rng.choice(PROP_VALS)
                      for _ in range(rng.randint(1, 2))}
-    if rng.random() < 0.02 and m in ('echo', 'poke', 'hi'):
+    if rng.random() < 0.02 and m in ('echo', 'poke', 'hi', 'relay'):
       op['badarg'] = True          # an argument the Thrift codec cannot serialise: fails before the wire
     ops.append(op)
   scn['ops'] = ops
